@@ -51,9 +51,15 @@ class Dispatcher(InstructionGenerator):
             inst_acc: Tuple[DispatchTripInstruction, ...],
             membership_id: Optional[MembershipId],
         ) -> Tuple[DispatchTripInstruction, ...]:
+            # a vehicle or request paired while solving an earlier fleet is taken
+            paired_vehicles = frozenset(i.vehicle_id for i in inst_acc)
+            paired_requests = frozenset(i.request_id for i in inst_acc)
+
             def _is_valid_for_dispatch(vehicle: Vehicle) -> bool:
                 vehicle_state_str = vehicle.vehicle_state.__class__.__name__.lower()
                 if vehicle_state_str not in environment.config.dispatcher.valid_dispatch_states:
+                    return False
+                elif vehicle.id in paired_vehicles:
                     return False
                 elif not vehicle.driver_state.available:
                     return False
@@ -82,7 +88,7 @@ class Dispatcher(InstructionGenerator):
                 )
 
             def _valid_request(r: Request) -> bool:
-                not_already_dispatched = not r.dispatched_vehicle
+                not_already_dispatched = not r.dispatched_vehicle and r.id not in paired_requests
                 valid_access = (
                     r.membership.grant_access_to_membership_id(membership_id)
                     if membership_id is not None
@@ -118,9 +124,10 @@ class Dispatcher(InstructionGenerator):
             return instructions
 
         if len(environment.fleet_ids) > 0:
-            fleet_ids = environment.fleet_ids
+            # sorted: the fleets are solved one after the other, so the order matters
+            fleet_ids = tuple(sorted(environment.fleet_ids, key=str))
         else:
-            fleet_ids = frozenset([None])
+            fleet_ids = (None,)
 
         initial_instructions: Tuple[DispatchTripInstruction, ...] = tuple()
 
